@@ -305,7 +305,8 @@ def _run(check: Check, args, t0: float) -> int:
         raise HarnessError(f"non-deterministic run: {len(det_bad)}/{len(det_pairs)} sampled cases differ between two processes, e.g. case {det_bad[0][0]}")
     # reach self-test
     missing = [k for k in check.required_fired if not (fired.get(k) or probes.get(k))]
-    if missing and not args.limit:
+    if missing and not args.limit and not viols:
+        # (when violations were found they are reported instead: a broken tree may well never reach some branch)
         raise HarnessError(f"reach self-test failed: never fired {missing}")
 
     # ---- verdicts ------------------------------------------------------------
